@@ -161,7 +161,7 @@ theorem at_most_max_redirects_requests (env : Env) (cfg : Cfg) (url : Url) (para
 def env0 : Env :=
   { jar := { σ := Unit, filter := fun _ _ => [], update := fun _ _ _ => () }
     reqSel := fun _ _ _ => [], netrc := fun _ => none, parseCookie := fun _ => [] }
-def url0 : Url := { origin := ⟨0, S "a.test", 80⟩, hostHdr := S "a.test", target := S "/" }
+def url0 : Url := { origin := ⟨0, S "a.test", 80, 0⟩, hostHdr := S "a.test", target := S "/" }
 
 /-- the hypothesis of `at_most_max_redirects_requests` is satisfiable and the bound is tight:
 `max_redirects = 2`, two redirects: exactly 2 requests, then `TooManyRedirects`. -/
@@ -279,7 +279,7 @@ embedded in the redirect to B go to B only, and hop 2 (back on A) carries no `Au
 at all (the hypotheses of the confinement theorems are inhabited by real chains) -/
 example :
     let a : Url := url0
-    let b : Url := { origin := ⟨0, S "b.test", 80⟩, hostHdr := S "b.test", target := S "/", cred := some (S "Basic B") }
+    let b : Url := { origin := ⟨0, S "b.test", 80, 0⟩, hostHdr := S "b.test", target := S "/", cred := some (S "Basic B") }
     let res := request env0 {} a none GET [] [(AUTHORIZATION, S "Bearer A")] none none ()
       [⟨302, .ok b, 0⟩, ⟨302, .ok a, 0⟩, ⟨200, .none, 0⟩]
     res.sent.map (fun s => (getFirst AUTHORIZATION s.headers).map (·.value)) =
@@ -376,10 +376,20 @@ theorem netrc_credential_is_for_this_host (env : Env) (cfg : Cfg) (url : Url) (p
 entry to a.test and nothing to b.test -/
 example :
     let envN : Env := { env0 with netrc := fun h => if h == S "a.test" then some (S "Basic NA") else none }
-    let b : Url := { origin := ⟨0, S "b.test", 80⟩, hostHdr := S "b.test", target := S "/" }
+    let b : Url := { origin := ⟨0, S "b.test", 80, 0⟩, hostHdr := S "b.test", target := S "/" }
     let res := requestF envN { trustEnv := true } url0 none GET [] [] none none ()
       [.resp ⟨302, .ok b, 0⟩, .resp ⟨200, .none, 0⟩]
     res.sent.map (fun s => (getFirst AUTHORIZATION s.headers).map (·.value)) = [some (S "Basic NA"), none] := by
   decide +kernel
+
+/-- The tables extracted from the source on every run are the documented ones: exactly 301, 302, 303,
+307, 308 are followed; 303 always and 301/302 after POST are rewritten to GET; the resend allowance is
+for the idempotent methods.  (If the source changes a table this stops checking, and the direct oracle
+is asked for a failing input.) -/
+theorem redirect_statuses_are_the_documented_five :
+    Gen.C17.redirectStatuses = [301, 302, 303, 307, 308] ∧ Gen.C17.seeOtherStatuses = [303] ∧
+    Gen.C17.postToGetStatuses = [301, 302] ∧
+    Gen.C17.idempotentMethods = [S "DELETE", S "GET", S "HEAD", S "OPTIONS", S "PUT", S "QUERY", S "TRACE"] := by
+  decide
 
 end Aio.C17
